@@ -168,7 +168,9 @@ PROPS = {
                  "exactly the VLANs of the removed lines that no added line has (old - new), the add command from exactly new - old, in "
                  "that order, with the `all` / bare-reverse shortcuts only when nothing is added - relative to _parse_vlancfg (line -> "
                  "prefix, VLAN set), collapse_vlandb (proved in specs.vlandb) and _chunked, which are opaque here",
-                 "huawei_expand_vlandb / cisco_expand_vlandb (int() of substrings), huawei vlan_diff, the cisco _process_vlandb / swtrunk "
+                 "huawei vlan_diff is proved: a removed `vlan N` that a `vlan batch` line of the new configuration still holds is only AFFECTED, an "
+                 "option-less `vlan N` held by the batch is not listed, everything else of default_diff passes through",
+                 "huawei_expand_vlandb / cisco_expand_vlandb (int() of substrings), the cisco _process_vlandb / swtrunk "
                  "logic and the chunking are not under a discharged contract: bounded only"],
     ),
     "C16": dict(
